@@ -10,9 +10,14 @@ Tie: correspondence (Coq vm_compute vs /repo) on
   model with scipy's recorded answers as the oracle table).
 Oracle: the property statement evaluated in Python on the implementation's
 outputs (independent of the Coq model).
-Known finding F3 (selector nan_scores_make_edge_assignment_infeasible): a NaN
-line score (coincident peaks of adjacent node types) becomes cost +inf and
-linear_sum_assignment raises `ValueError: cost matrix is infeasible`.
+Finding F3 (selector nan_scores_make_edge_assignment_infeasible; FIXED in /repo by
+f3ef4e3): on the pinned tree a NaN line score (coincident peaks of adjacent node
+types) became cost +inf and linear_sum_assignment raised `ValueError: cost matrix
+is infeasible`.  `detect_f3` finds which variant the code under check has; the
+current tree gives NaN entries the cost 1e6 and drops matches landing on them.
+Round 4: float min_instance_peaks are tied through the binary64 product (thr
+stream), the domination hypothesis of c08_matches_optimal_fixed is evaluated on
+every generated edge, candidate order is observed unsorted.
 """
 from __future__ import annotations
 
@@ -31,7 +36,12 @@ ATOL, RTOL = 2e-5, 3e-4
 SEL_F3 = "nan_scores_make_edge_assignment_infeasible"
 WITNESS_F3 = core.CORPUS / "C08" / "F3_coincident_peaks.json"
 
-MIPS = [0, 0, 1, 2, 3, 0.25, 0.5, 1.0]
+# ints, dyadic floats and NON-dyadic floats (0.3, 0.6, 0.7, 0.9: the float64 product f * n_nodes differs from
+# the exact product for 0.6 x 5 nodes, 0.3 / 0.6 / 0.7 x 10 nodes, ... — review finding 1)
+MIPS = [0, 0, 1, 2, 3, 0.25, 0.5, 1.0, 0.3, 0.6, 0.7, 0.9]
+THR_FLOATS = [0.3, 0.6, 0.7, 0.9, 0.15, 0.12, 0.35, 0.85, 0.95, 0.1, 0.2, 0.45, 0.55, 0.65, 0.8, 0.25, 0.5, 1.0, 1.5]
+THR_DIFFER = [(f, n) for n in range(2, 31) for f in [k / 100 for k in range(1, 100)]
+              if int(f * n) != (F(f) * n).__floor__()]
 
 
 # ---------------------------------------------------------------- Coq literals
@@ -242,6 +252,26 @@ def gen_case_assign(rng, tp, ET):
     return {"kind": "assign", "n_nodes": n, "ecs": ecs, "mip": rng.choice(MIPS), "wellformed": wf}
 
 
+def gen_case_thr(rng):
+    """float min_instance_peaks against the size filter: a chain skeleton 0-1-...-(n-1) and instances whose
+    sizes straddle both int(f * n) (float64 product, what the code computes) and floor of the exact product"""
+    r = rng.random()
+    if r < 0.45:
+        f, n = rng.choice(THR_DIFFER)
+    elif r < 0.85:
+        f, n = rng.choice(THR_FLOATS), rng.randint(2, 30)
+    else:
+        f, n = rng.randrange(1, 200) / 128 if rng.random() < 0.3 else rng.random(), rng.randint(2, 30)
+    t_code, t_exact = int(f * n), (F(f) * n).__floor__()
+    sizes = {t for t in (t_code - 1, t_code, t_code + 1, t_exact, t_exact + 1, 2, n) if 2 <= t <= n}
+    sizes = sorted(sizes)
+    rng.shuffle(sizes)
+    ecs = []
+    for j in range(n - 1):
+        ecs.append(((j, j + 1), [(i, i, gen_score(rng, "distinct")) for i, sz in enumerate(sizes) if j < sz - 1]))
+    return {"kind": "thr", "n_nodes": n, "ecs": ecs, "mip": f, "sizes": sizes, "wellformed": True}
+
+
 def gen_case_make(rng, tp, ET):
     wf = rng.random() < 0.4
     n, counts, ecs = gen_econns(rng, wf, tp, ET)
@@ -393,8 +423,10 @@ def term(c):
         return f"CCand {L(c['edges'], E)} {L(c['chans'])}"
     if k == "match":
         return f"CMatch {cbool(c['fx'])} {Qc(c['big'])} {c['n_edges']} {L(c['cands'], cand_lit)}"
-    if k == "assign":
+    if k in ("assign", "thr"):
         return f"CAssign {econns_lit(c['ecs'])} {mip_lit(c['mip'])} {c['n_nodes']}"
+    if k == "thrval":
+        return f"CThr {mip_lit(c['mip'])} {c['n_nodes']}"
     if k == "make":
         return (f"CMake {L(c['pk'], lambda l: L(l, payload_lit))} {econns_lit(c['ecs'])} "
                 f"{assign_lit([(tuple(x[0]), x[1]) for x in c['assign']])}")
@@ -474,7 +506,7 @@ class Impl:
         ei, epi = self.pg.get_connection_candidates(t.tensor(c["chans"], dtype=t.int32),
                                                     [tuple(e) for e in c["edges"]], c["n_nodes"])
         epi = epi.reshape(-1, 2)
-        return sorted(zip(ei.tolist(), epi[:, 0].tolist(), epi[:, 1].tolist()))
+        return list(zip(ei.tolist(), epi[:, 0].tolist(), epi[:, 1].tolist()))       # in the code's own order
 
     # -- match_candidates_sample on explicit tensors
     def match_tensors(self, ei, epi, ls, n_edges):
@@ -581,7 +613,12 @@ class Impl:
         res = {"sorted": list(sc.sorted_edge_inds),
                "edge_types": [(e.src_node_ind, e.dst_node_ind) for e in sc.edge_types]}
         # stage 1: scoring (taken from the implementation)
-        ei, epi, ls = sc.score_paf_lines(pafs, peaks, chans)
+        try:
+            ei, epi, ls = sc.score_paf_lines(pafs, peaks, chans)
+        except Exception as e:                      # "grouping finishes without raising" starts here
+            res["score_error"] = err_kind(e)
+            res["per"] = []
+            return res
         per = []
         for b in range(len(pts)):
             ei_b, epi_b, ls_b = ei[b], epi[b].reshape(-1, 2), ls[b]
@@ -747,6 +784,37 @@ def selector_f3(cands):
     return False
 
 
+def big_dominates(big, cands, n_edges):
+    """Python twin of Grouping.big_dominatesb, per edge: big > min(n_src, n_dst) * (hi - lo) with
+    lo = min(0, finite scores), hi = max(0, finite scores) — the hypothesis of c08_matches_optimal_fixed"""
+    tabs = score_tables(cands)
+    out = []
+    for k in range(n_edges):
+        fs = [x for kk, _, _, x in cands if kk == k and x is not None]
+        n, m = (tabs[k][0], tabs[k][1]) if k in tabs else (0, 0)
+        lo, hi = min([F(0)] + fs), max([F(0)] + fs)
+        out.append(big > min(n, m) * (hi - lo))
+    return out
+
+
+def grid_order(raw):
+    """The candidate list in the code's own order (not sorted): edge blocks ascending and contiguous, each block
+    the src-major product S x D of the order in which its sources / destinations first appear (what meshgrid 'ij'
+    of two index vectors yields, whatever order torch.argsort gave them).  Returns (reason|None, identical)
+    where identical = every S and D ascending, i.e. the order is exactly the model's."""
+    ks = [c[0] for c in raw]
+    if ks != sorted(ks):
+        return f"edge blocks not ascending: {ks}", False
+    ident = True
+    for k in sorted(set(ks)):
+        blk = [(s, d) for kk, s, d in raw if kk == k]
+        S, D = list(dict.fromkeys(s for s, _ in blk)), list(dict.fromkeys(d for _, d in blk))
+        if blk != [(s, d) for s in S for d in D]:
+            return f"edge {k}: candidates {blk} are not a src-major grid", False
+        ident = ident and S == sorted(S) and D == sorted(D)
+    return None, ident
+
+
 def partial_assignments(n, m, size):
     for rows in itertools.combinations(range(n), size):
         for cols in itertools.permutations(range(m), size):
@@ -887,9 +955,11 @@ def check(run: core.Run) -> int:
     cases += [gen_case_make(rng, tp, ET) for _ in range(160 * scale)]
     cases += [gen_case_group(rng, tp, ET) for _ in range(300 * scale)]
     cases += [gen_case_predict(rng, thorough) for _ in range(170 * scale)]
+    cases += [gen_case_thr(rng) for _ in range(80 * scale)]
 
     # implementation first (predict cases need its scores and scipy's answers to build the model terms)
     units = []          # (case, sub-index, term, impl result)
+    early_fail = []     # predict cases whose scoring stage raised (no model term can be built)
     for c in cases:
         k = c["kind"]
         if k == "cand":
@@ -899,6 +969,9 @@ def check(run: core.Run) -> int:
             units.append((c, None, term(c), impl.match(c)))
         elif k == "assign":
             units.append((c, None, term(c), impl.assign(c)))
+        elif k == "thr":
+            units.append((c, "assign", term(c), impl.assign(c)))
+            units.append((c, "val", term({"kind": "thrval", "mip": c["mip"], "n_nodes": c["n_nodes"]}), None))
         elif k == "make":
             units.append((c, None, term(c), impl.make(c)))
         elif k == "group":
@@ -906,6 +979,8 @@ def check(run: core.Run) -> int:
         elif k == "predict":
             r = impl.predict(c)
             c["_impl"] = r
+            if "score_error" in r:
+                early_fail.append((c, f"PAFScorer.score_paf_lines raised {r['score_error']}"))
             for b, per in enumerate(r["per"]):
                 order = py_candidates(c["edges"], [p[0] for p in c["samples"][b]])
                 smap = {(kk, s, d): x for kk, s, d, x in per["cands"]}
@@ -920,7 +995,8 @@ def check(run: core.Run) -> int:
     model = core.coq_eval_sharded(PREAMBLE, [u[2] for u in units], "Grouping.run", "routcome",
                                   shard=60 if not thorough else 150, jobs=12)
 
-    stats = {"disagreements": 0, "oracle_failures": 0, "known_F3": 0}
+    stats = {"disagreements": 0, "oracle_failures": 0, "known_F3": 0, "edges_checked_for_domination": 0,
+             "edges_not_dominated": 0}
     dist = {}
     fired = {}
 
@@ -936,6 +1012,8 @@ def check(run: core.Run) -> int:
 
     broken = []
     predict_seen = set()
+    for c, reason in early_fail:
+        fail(c, reason)
     for (c, b, _, ir), mj in zip(units, model):
         k = c["kind"]
         dist[k] = dist.get(k, 0) + 1
@@ -944,18 +1022,26 @@ def check(run: core.Run) -> int:
         if k == "cand":
             run.case(enc(c), nontrivial=len(ir) >= 2)
             mm = sorted(tuple(x) for x in mj)
-            if mm != ir or [tuple(x) for x in mj] != py_candidates(c["edges"], c["chans"]):
-                d = disagree(c, "get_connection_candidates", f"impl {ir} model {mj}")
+            why_g, ident = grid_order(ir)               # the code's own order, observed unsorted
+            key = "cand:order=model's" if ident else "cand:order=argsort-permuted"
+            dist[key] = dist.get(key, 0) + 1
+            if why_g or mm != sorted(ir) or [tuple(x) for x in mj] != py_candidates(c["edges"], c["chans"]):
+                d = disagree(c, "get_connection_candidates", f"{why_g}; impl {ir} model {mj}")
             want = py_candidates(c["edges"], c["chans"])
-            if ir != sorted(want):
+            if sorted(ir) != sorted(want) or len(set(ir)) != len(ir):
                 bad = f"candidates {ir} are not all src x dst pairs per edge {sorted(want)}"
         elif k == "match":
             (out, calls) = ir
-            Ms, bf, tot, nopt, res = mj
+            Ms, bf, tot, nopt, res, dom = mj
             run.case(enc(strip(c)), nontrivial=any(len(M) >= 2 and len(M[0]) >= 2 for M in Ms))
             dist["match:" + c["style"]] = dist.get("match:" + c["style"], 0) + 1
             why = check_calls(Ms, bf, tot, calls)
             mm = model_matches(res)
+            dom_py = big_dominates(big, c["cands"], c["n_edges"])
+            if dom != dom_py:
+                why = why or f"big_dominatesb: Coq {dom} Python {dom_py}"
+            stats["edges_checked_for_domination"] += len(dom_py)
+            stats["edges_not_dominated"] += sum(1 for x in dom_py if not x)
             if why is None and len(calls) != (len(Ms) if out[0] == "ok" else len(calls)):
                 why = f"{len(calls)} assignment problems for {len(Ms)} edges"
             if why is None and (out[0] == "err") != (mm[0] == "err"):
@@ -989,6 +1075,29 @@ def check(run: core.Run) -> int:
                 broken.append(f"model fired {fs} on a well-formed case {enc(c)}")
             if [[list(x[0]), x[1]] for x in a0] != ir[0] or [[list(x[0]), x[1]] for x in a1] != ir[1]:
                 d = disagree(c, "assign_connections_to_instances", f"impl {ir} model {[a0, a1]}")
+        elif k == "thr" and b == "assign":
+            a0, fs, a1 = mj
+            f_, n_ = c["mip"], c["n_nodes"]
+            differs = int(f_ * n_) != (F(f_) * n_).__floor__()
+            run.case(enc(c), nontrivial=True)
+            dist["thr:float64 product != exact product" if differs else "thr:products agree"] = dist.get(
+                "thr:float64 product != exact product" if differs else "thr:products agree", 0) + 1
+            if any(x not in ("1", "2") for x in fs):
+                broken.append(f"model fired {fs} on a chain case {enc(c)}")
+            if [[list(x[0]), x[1]] for x in a0] != ir[0] or [[list(x[0]), x[1]] for x in a1] != ir[1]:
+                d = disagree(c, "assign_connections_to_instances (float threshold)", f"impl {ir[1]} model {a1}")
+            thr = threshold(f_, n_)
+            want = sorted([j, i] for i, sz in enumerate(c["sizes"]) if thr is None or sz >= thr for j in range(sz))
+            got = sorted(x[0] for x in ir[1])
+            if got != want:
+                bad = (f"min_instance_peaks={f_!r} n_nodes={n_}: instances of sizes {c['sizes']} -> kept peaks {got}, "
+                       f"expected those of the instances with >= int(f*n_nodes) = {thr} peaks: {want}")
+        elif k == "thr" and b == "val":
+            t_, prod = mj
+            f_, n_ = c["mip"], c["n_nodes"]
+            if t_ != threshold(f_, n_) or (f_ > 0 and F(prod[0], prod[1]) != F(f_ * n_)):
+                d = disagree(c, "threshold (binary64 product)", f"min_instance_peaks={f_!r} n_nodes={n_}: model threshold "
+                             f"{t_} product {prod}; float64 product {f_ * n_!r} int() {threshold(f_, n_)}")
         elif k in ("make", "group"):
             run.case(enc(c), nontrivial=(len(c["ms"]) >= 2 if k == "group" else len(c["assign"]) >= 2))
             why = cmp_group(mj, ir)
@@ -999,7 +1108,7 @@ def check(run: core.Run) -> int:
         elif k == "predict":
             per = ir
             r = c["_impl"]
-            srt, Ms, msj, gj, sel = mj
+            srt, Ms, msj, gj, sel, dom = mj
             npk = len(c["samples"][b])
             run.case(enc({"c": strip(c), "b": b}), nontrivial=npk >= 3 and len(per["cands"]) >= 2)
             dist["predict:peaks=0" if npk == 0 else "predict:peaks>0"] = dist.get(
@@ -1024,6 +1133,16 @@ def check(run: core.Run) -> int:
                     why = f"impl raised {per['match'][1]} in matching, model returns"
             if why is None and sel != selector_f3(per["cands"]):
                 why = f"selector_F3: Coq {sel} Python {selector_f3(per['cands'])}"
+            dom_py = big_dominates(big, per["cands"], len(c["edges"]))
+            if why is None and dom != dom_py:
+                why = f"big_dominatesb: Coq {dom} Python {dom_py}"
+            stats["edges_checked_for_domination"] += len(dom_py)
+            stats["edges_not_dominated"] += sum(1 for x in dom_py if not x)
+            why_g, ident = grid_order([x[:3] for x in per["cands"]])      # score_paf_lines' own candidate order
+            key = "predict:cand-order=model's" if ident else "predict:cand-order=argsort-permuted"
+            dist[key] = dist.get(key, 0) + 1
+            if why is None and why_g:
+                why = f"candidate order of score_paf_lines: {why_g}"
             if why:
                 d = disagree(c, "PAFScorer.predict (per sample)", f"sample {b}: {why}")
             # the property on the implementation's output
@@ -1061,6 +1180,15 @@ def check(run: core.Run) -> int:
                    dist.get("predict:peaks>16", 0) >= 10 and dist.get("predict:via=from_config", 0) >= 20
                    and dist.get("predict:via=init", 0) >= 20,
                    f"{dist.get('predict:peaks>16', 0)} samples > 16 peaks; from_config {dist.get('predict:via=from_config', 0)}")
+    run.obligation("hypothesis of c08_matches_optimal_fixed: `big` dominates the score range "
+                   "(big > min(n_src, n_dst) * (hi - lo)) on EVERY generated edge of the match and predict streams "
+                   "(Coq big_dominatesb == Python twin on each)",
+                   (not fx) or stats["edges_not_dominated"] == 0,
+                   f"{stats['edges_not_dominated']} of {stats['edges_checked_for_domination']} edges not dominated (big={big})")
+    run.obligation("generator strength: float min_instance_peaks whose float64 product with n_nodes differs from the "
+                   "exact product (0.6 x 5, 0.3 x 10, ...) are generated on purpose, with instance sizes on both sides",
+                   dist.get("thr:float64 product != exact product", 0) >= 20,
+                   f"{dist.get('thr:float64 product != exact product', 0)} such cases")
     run.coverage.update({
         "input_distribution": dist, "model_cases_fired_in_assign_stream": fired, **stats,
         "f3_behaviour": {"fixed_F3": fx, "big": str(big)},
@@ -1074,11 +1202,20 @@ def check(run: core.Run) -> int:
     run.trusted += [
         "scipy.optimize.linear_sum_assignment is an oracle (Section variable with contract); every recorded answer "
         "is checked against the contract by the Gallina brute-force optimum (sizes <= 5x5)",
-        "torch.argsort/unique/nonzero, numpy.unique, dict insertion order are modelled (Grouping.v) and compared, not verified",
+        "torch.unique/nonzero, numpy.unique, dict insertion order are modelled (Grouping.v) and compared, not verified; "
+        "torch.argsort (stable=False) fixes the order of peaks WITHIN a node type in the candidate list: observed "
+        "unsorted, required to be a src-major grid per edge, counted how often it equals the model's ascending order "
+        "(input_distribution cand:order=...); no output depends on it (ranks come from torch.unique)",
+        "float min_instance_peaks: `b64_round` (Grouping.v) models the binary64 product f * n_nodes; compared with the "
+        "interpreter's float product on every thr case (exact equality of the rational value) and through the size filter",
         "score_paf_lines (PAF sampling, float32 dot products) is NOT modelled here: its output is fed to the model exactly",
     ]
-    run.assumptions += ["peak coordinates, peak values and PAFs are finite; min_line_scores and float "
-                        "min_instance_peaks are dyadic (exact in float32)",
+    run.assumptions += ["peak coordinates, peak values and PAFs are finite; min_line_scores is dyadic (exact in float32); "
+                        "float min_instance_peaks: any finite binary64 whose product with n_nodes does not overflow",
+                        "line scores are bounded so that the NaN placeholder cost 1e6 dominates: "
+                        "min(n_src, n_dst) * (max(0, scores) - min(0, scores)) < 1e6 per edge (checked on every generated "
+                        "edge; needs |PAF| values around 1e5 to fail — then the repaired matching can prefer a NaN entry "
+                        "to a very negative finite one, Props.ex_1e6_not_dominating)",
                         "edge types of a skeleton are pairwise distinct (a dict keyed by EdgeType holds the connections)"]
     return run.finish()
 
@@ -1162,6 +1299,9 @@ def replay(run: core.Run, path: str) -> int:
     bad = None
     if k == "predict":
         r = impl.predict(c)
+        if "score_error" in r:
+            bad = f"PAFScorer.score_paf_lines raised {r['score_error']}"
+            r["predict"] = ("err", r["score_error"])
         for b, per in enumerate(r["per"]):
             if per["match"][0] == "err":
                 bad = bad or f"sample {b}: matching raised {per['match'][1]}"
@@ -1176,8 +1316,13 @@ def replay(run: core.Run, path: str) -> int:
         bad = f"raised {out[1]}" if out[0] == "err" else oracle_matching(c["cands"], out[1])
     elif k == "group":
         bad = oracle_group(c["n_nodes"], c["edges"], c["peaks"], c["ms"], c["mls"], c["mip"], impl.group(c))
+    elif k == "thr":
+        thr = threshold(c["mip"], c["n_nodes"])
+        want = sorted([j, i] for i, sz in enumerate(c["sizes"]) if thr is None or sz >= thr for j in range(sz))
+        got = sorted(x[0] for x in impl.assign(c)[1])
+        bad = None if got == want else f"kept peaks {got}, expected {want} (threshold {thr})"
     elif k == "cand":
-        bad = None if impl.cand(c) == sorted(py_candidates(c["edges"], c["chans"])) else "candidates differ"
+        bad = None if sorted(impl.cand(c)) == sorted(py_candidates(c["edges"], c["chans"])) else "candidates differ"
     else:
         print(json.dumps({"note": f"kind {k} is a correspondence-only case; run ./check C08"}))
     print(json.dumps({"oracle": bad}))
